@@ -446,8 +446,85 @@ pub fn storm_theme_sized(t: &mut Tape, heavy: bool) -> Option<Pos> {
     Some(p)
 }
 
-/// A position with exactly one legal move (a forced reply), found on walks from check themes.
+/// The side to move is in check from a defended knight, its king is smothered by its own men, and the
+/// only legal moves are captures of that knight by rooks / queens - every one of them a losing capture
+/// by static exchange, and no quiet move exists at all.
+pub fn losing_captures_theme(t: &mut Tape) -> Option<Pos> {
+    use crate::refchess::sq;
+    let mut p = Pos::empty();
+    let (kf, dir) = if t.pick(2) == 0 { (7, -1) } else { (0, 1) };
+    p.board[sq(kf, 0) as usize] = Some(Pc::new(true, Kind::K));
+    p.board[sq(kf + dir, 0) as usize] = Some(Pc::new(true, [Kind::R, Kind::N, Kind::R, Kind::B][t.pick(4)]));
+    p.board[sq(kf + dir, 1) as usize] = Some(Pc::new(true, Kind::P));
+    p.board[sq(kf, 1) as usize] = Some(Pc::new(true, Kind::P));
+    let n = sq(kf + 2 * dir, 1);
+    p.board[n as usize] = Some(Pc::new(false, Kind::N));
+    p.white_to_move = true;
+    // black king somewhere far away, or next to the knight as its defender
+    let bk = if t.pick(4) == 0 { sq(kf + 3 * dir, 1 + t.pick(2) as i32) } else { sq(t.pick(8) as i32, 5 + t.pick(3) as i32) };
+    p.board[bk as usize] = Some(Pc::new(false, Kind::K));
+    // a defender of the knight
+    for _ in 0..6 {
+        let k = [Kind::P, Kind::B, Kind::R, Kind::Q, Kind::N, Kind::P][t.pick(6)];
+        let s = t.pick(64) as u8;
+        let pc = Pc::new(false, k);
+        if p.board[s as usize].is_some() || (k == Kind::P && (s < 8 || s >= 56)) {
+            continue;
+        }
+        p.board[s as usize] = Some(pc);
+        p.board[n as usize] = None; // is the square defended?
+        let defended = p.attacked(n, false);
+        p.board[n as usize] = Some(Pc::new(false, Kind::N));
+        if defended {
+            break;
+        }
+        p.board[s as usize] = None;
+    }
+    // one or two heavy capturers
+    let want = 1 + t.pick(2);
+    let mut have = 0;
+    for _ in 0..12 {
+        if have == want {
+            break;
+        }
+        let s = t.pick(64) as u8;
+        if p.board[s as usize].is_some() {
+            continue;
+        }
+        p.board[s as usize] = Some(Pc::new(true, [Kind::Q, Kind::R][t.pick(2)]));
+        let ok = p.validate().is_ok() && {
+            let legal = p.legal_moves();
+            !legal.is_empty() && legal.iter().all(|m| m.capture && m.to == n) && legal.len() > have
+        };
+        if ok {
+            have += 1;
+        } else {
+            p.board[s as usize] = None;
+        }
+    }
+    if have == 0 {
+        return None;
+    }
+    p.fullmove = 1 + t.pick(60) as u32;
+    if t.pick(2) == 0 {
+        p = p.mirror();
+    }
+    p.validate().ok()?;
+    let legal = p.legal_moves();
+    if legal.is_empty() || !legal.iter().all(|m| m.capture) {
+        return None;
+    }
+    Some(p)
+}
+
+/// A position with exactly one legal move (a forced reply), found on walks from check themes; one
+/// time in three a constructed position whose only legal moves are losing captures.
 pub fn forced_theme(t: &mut Tape) -> Option<Pos> {
+    if t.pick(3) == 0 {
+        if let Some(p) = losing_captures_theme(t) {
+            return Some(p);
+        }
+    }
     for _ in 0..6 {
         let mix = if t.pick(2) == 0 { Mix::General } else { Mix::Tactical };
         let Some(gp) = gen::gen_root(t, mix) else { continue };
